@@ -1,7 +1,7 @@
 SPECIFICATION TSpec
 CONSTANTS Kinds = {"rm", "rcm"} MaxR = 0 MaxC = 0 MaxLate = 0 MaxClose = 0 GraceSet = {} MaxT = 0
   RClasses = {} CClasses = {}
-  AtomicAddCloser = TRUE GraceRecheck = TRUE Monitor = FALSE Defect = "none"
+  AtomicAddCloser = TRUE GraceRecheck = TRUE ReleaseBeforeStart = TRUE Monitor = FALSE Defect = "none"
 CONSTRAINT Done
 INVARIANTS ClosersAfterRunners
 CHECK_DEADLOCK FALSE
